@@ -163,6 +163,9 @@ fn parse_group(name: &str, metadata: &StructMetadata, g: &Group) -> TokenStream 
     let mut doc_comments_for_next = Vec::new();
     let mut parsed_fields = VecDeque::new();
     let mut subcommand = None;
+    // A `#[cli(..)]` already seen for the upcoming member, kept while further attributes
+    // (doc comments, foreign attributes) placed between it and the member are read
+    let mut pending_member_state = None;
     let mut c = CodeWriter::new(name, metadata);
     while let Some(tree) = stream.next() {
         match &tree {
@@ -175,15 +178,19 @@ fn parse_group(name: &str, metadata: &StructMetadata, g: &Group) -> TokenStream 
                             doc_comments_for_next.push(com);
                         }
                         GroupParseResult::SubCommand => {
+                            pending_member_state = None;
                             state = ArgsParsedTreeParseState::WantsSubcommand;
                             continue;
                         }
                         GroupParseResult::FieldPreferences(prefs) => {
+                            pending_member_state = None;
                             state = ArgsParsedTreeParseState::WantsMember(prefs);
                             continue;
                         }
                     }
-                    state = ArgsParsedTreeParseState::Ready;
+                    state = pending_member_state
+                        .take()
+                        .unwrap_or(ArgsParsedTreeParseState::Ready);
                     continue;
                 }
                 ArgsParsedTreeParseState::WantsSubcommand
@@ -249,6 +256,13 @@ fn parse_group(name: &str, metadata: &StructMetadata, g: &Group) -> TokenStream 
             },
             TokenTree::Punct(p) => {
                 if p.as_char() == '#' {
+                    if matches!(
+                        state,
+                        ArgsParsedTreeParseState::WantsMember(_)
+                            | ArgsParsedTreeParseState::WantsSubcommand
+                    ) {
+                        pending_member_state = Some(state.clone());
+                    }
                     state = ArgsParsedTreeParseState::WantsAnnotation;
                 }
             }
